@@ -247,6 +247,9 @@ func (x *Exec) callTarget(ti, form int, argSeed uint64, hit bool) {
 		}
 	}
 	args := val.GenArgs(rng.Derive(argSeed, 11), t.Typ)
+	if t.FixArgs != nil {
+		t.FixArgs(args)
+	}
 	if hit && s.kind == kStub && len(s.stub.Clauses) > 0 {
 		c := s.stub.Clauses[int(argSeed%uint64(len(s.stub.Clauses)))]
 		args = nil
@@ -255,6 +258,9 @@ func (x *Exec) callTarget(ti, form int, argSeed uint64, hit bool) {
 		}
 		for _, m := range c.Alts[0] {
 			args = append(args, m.Values[0])
+		}
+		if t.FixArgs != nil {
+			t.FixArgs(args)
 		}
 	}
 	if s.kind == kCbOrigin && form == thunk.FormGo {
@@ -307,7 +313,7 @@ func (x *Exec) callTarget(ti, form int, argSeed uint64, hit bool) {
 		if calls != 1 {
 			x.fail("behaviour/cb-count", "mocked %s: callback ran %d times for one call (form %s)", t.Name, calls, thunk.FormNames[form])
 		}
-		if !val.SameList(seen, args, true) {
+		if !t.ArgsUnchecked && !val.SameList(seen, args, true) {
 			x.fail("behaviour/cb-args", "mocked %s: callback saw %s, caller passed %s (form %s)", t.Name, val.ShowList(seen), val.ShowList(args), thunk.FormNames[form])
 		}
 		if !noRes && !val.SameList(got, s.results, true) {
@@ -543,10 +549,19 @@ func (x *Exec) step(op world.Op) {
 		var cb interface{}
 		if op.F&1 == 1 {
 			rec.IsOrigin = true
-			cb = t.MkOrig(rec)
 			x.phUsed[op.T] = true
 			phEver[op.T] = true
-			m = m.Origin(t.Ph)
+			if t.MkOrigLocal != nil && op.V&1 == 1 {
+				// the placeholder VARIABLE is a fresh one that only this callback references (the README's
+				// local `var origin = func...`): it dies with the callback, its code body is the zoo's
+				var ph interface{}
+				cb, ph = t.MkOrigLocal(rec)
+				m = m.Origin(ph)
+				x.env.Probe("origin_placeholder_variable_local")
+			} else {
+				cb = t.MkOrig(rec)
+				m = m.Origin(t.Ph)
+			}
 		} else {
 			rec.Results = val.GenResults(rng.Derive(op.V, 21), t.Typ)
 			cb = t.MkCb(rec)
@@ -839,7 +854,16 @@ func (x *Exec) bad(op world.Op) {
 	case 5:
 		desc = "When(too few arguments)"
 		if t.Typ.IsVariadic() {
-			return
+			// variadic with at least two fixed parameters: fewer values than fixed parameters, on a fresh
+			// mocker (checked by CreateWhen) as well as chained onto an existing stub (checked when the
+			// condition's expressions are built)
+			if t.IsMethod || t.Typ.NumIn() < 3 {
+				return
+			}
+			desc = "When(fewer values than the fixed parameters of a variadic target)"
+			args := val.GenArgs(r, t.Typ)[:t.Typ.NumIn()-2]
+			f = func() { t.Lookup(b, x.how(op.T)).When(args...) }
+			break
 		}
 		args := val.GenArgs(r, t.Typ)
 		if t.SkipRecv != nil && t.SkipRecv(x.how(op.T)) {
